@@ -98,7 +98,8 @@ func VerifC08IndexKinds() {
 		fv = float64(f32)
 		idx, isFloat = f32, true
 	case 1:
-		idx = "1"
+		// a string is not a position: not "1", and not the names of the pseudo-properties either
+		idx = []string{"1", "first", "last", "size", ""}[nd.Choice(5)]
 	case 2:
 		idx = nil
 	case 3:
@@ -337,11 +338,16 @@ func VerifC08FilterErrors() {
 	// every standard filter, given one argument more than it takes
 	f := c08Arity[nd.Choice(len(c08Arity))]
 	src = "{{ r | " + f.name + ":"
+	surplus := []string{" 1", " nope", " nil", " r[99]"}[nd.Choice(4)] // a surplus argument is an error whatever it evaluates to
 	for i := 0; i <= f.args; i++ {
 		if i > 0 {
 			src += ","
 		}
-		src += " 1"
+		if i == f.args {
+			src += surplus
+		} else {
+			src += " 1"
+		}
 	}
 	src += " }}"
 	for _, r := range []any{"abc", 5, []any{1, 2}} {
